@@ -11,6 +11,7 @@ reaches the store; (6) the consumers report the specified error on the emptied s
 from lib import (sfx, get_fn, callers_of, aggregates, strip_expr, expr_calls, show, switch_arms_on,
                  arm_target, exclusive_region, region_aggregates, region_calls)
 from mir import norm
+import common
 
 LEVEL = "proof"
 EXPLANATION = (
@@ -69,31 +70,7 @@ def run(ck, F, E):
                    "set_numbered_line no longer updates the line store", setl.span)
 
     # ---- (3) single writer of the line store, single caller
-    for field in ("numbered_lines", "sorted_line_numbers"):
-        ws = E.writers_of_field("program_lines::ProgramLines", field)
-        names = sorted(ws)
-        ok = all(sfx(n, "ProgramLines::set") for n in names) and names
-        ck.require(
-            ok, "C11:WRITER:ProgramLines.%s" % field, "single writer",
-            "only ProgramLines::set writes ProgramLines.%s" % field,
-            "ProgramLines.%s is written outside ProgramLines::set: %s" % (field, names),
-        )
-    callers = callers_of(F, "ProgramLines::set")
-    cn = sorted({b.path for b, _ in callers})
-    ck.require(
-        cn and all(sfx(n, "Program::set_numbered_line") for n in cn),
-        "C11:CALLER:ProgramLines::set", "who-may-call",
-        "ProgramLines::set is called only by Program::set_numbered_line",
-        "ProgramLines::set has callers other than Program::set_numbered_line: %s" % cn,
-    )
-    edit_callers = sorted({b.path for b, _ in callers_of(F, "Program::set_numbered_line")})
-    allowed = ("Interpreter::evaluate_impl", "SourceFileAnalyzer::run")
-    ck.require(
-        edit_callers and all(any(sfx(n, a) for a in allowed) for n in edit_callers),
-        "C11:CALLER:Program::set_numbered_line", "who-may-call",
-        "set_numbered_line is called from %s" % edit_callers,
-        "set_numbered_line gained an unexpected caller: %s" % edit_callers,
-    )
+    common.single_writer_store(ck, F, E, "C11")
 
     # ---- (4) establishment: raw u64 -> location only at validated sites
     n_sites = 0
@@ -122,24 +99,9 @@ def run(ck, F, E):
                sorted({b.path for b, _ in dcalls}))
 
     # ---- (5) rejected edit invalidates nothing: the stored tokens are the Ok payload of tokenisation
-    ev = get_fn(ck, F, "Interpreter::evaluate_impl")
-    if ev is not None:
-        cs = ev.calls_to("Program::set_numbered_line")
-        ck.require(len(cs) == 1, "C11:EDITPATH:one-call", "edit path", "one store call in evaluate_impl",
-                   "expected exactly one set_numbered_line call in evaluate_impl, found %d" % len(cs), ev.span)
-        for c in cs:
-            e = ev.expr(c.args[2])
-            ok = is_tokenize_ok_payload(e)
-            ck.require(ok, "C11:EDITPATH:tokens-from-ok-arm", "edit path",
-                       "tokens argument = Continue payload of Try::branch(Tokenizer::remaining_tokens(..))",
-                       "the tokens stored by an edit are not the success payload of tokenisation (%s): a line that "
-                       "fails to tokenize could reach the store" % show(e), c.span)
-            # the line number is the one parsed from the same text
-            e1 = ev.expr(c.args[1])
-            ck.require("parse_line_number" in show_calls(e1) or _from_parse(ev, c.args[1]),
-                       "C11:EDITPATH:number-from-parse", "edit path",
-                       "line number argument comes from parse_line_number(line)",
-                       "the stored line number does not come from parse_line_number: %s" % show(e1), c.span)
+    ev, c = common.edit_path_rules(ck, F, E, "C11")
+    if ev is not None and c is not None:
+        if True:
             # (7) nothing after the store on this path touches variables / arrays
             region = ev.blocks_reachable_from(c.bb)
             touched = set()
